@@ -259,6 +259,7 @@ func C19(c *Case) *Result {
 		}
 	}()
 	exec1 := func(args []string, env map[string]string, stdin []byte) cliRun {
+		sim.Heartbeat()
 		r := runCLI(cli, root, args, env, stdin)
 		runs = append(runs, r)
 		if r.TimedOut {
